@@ -13,7 +13,10 @@ from . import c05
 
 PROPERTY = 'C07'
 META = {
-    'bounds': 'the 30 release protocol numbers of the README (enumerated: the '
+    'bounds': 'quick tier: full 32-bit VarInt range for set-compression, '
+              'keep-alive (both directions) and teleport-confirm at 47, 338, '
+              '757 (other VarInt fields: 1-2 bytes; thorough: full range '
+              'everywhere); ' 'the 30 release protocol numbers of the README (enumerated: the '
               'reference table is per release) x the 20 core packets; every '
               'field value symbolic over its wire domain (strings of 1 '
               'arbitrary scalar value, byte arrays of 2 bytes, world-name '
@@ -210,6 +213,16 @@ def instances(tier, seed):
         out.append(Instance('release:%d' % pv, 'core_packet',
                             {'pv': pv, 'lite': tier != 'thorough'},
                             W=96, budget_s=3000, witness_every=3))
+    if tier != 'thorough':
+        # the full VarInt range (all five length classes, values with the
+        # 32-bit sign bit set) for the small packets that carry ids
+        for pv in (47, 338, 757):
+            for first, last in ((10, 11), (14, 15)):
+                out.append(Instance(
+                    'release:%d:fullints:%d-%d' % (pv, first, last),
+                    'core_packet', {'pv': pv, 'lite': False, 'first': first,
+                                    'last': last}, W=96, budget_s=900,
+                    witness_every=3))
     for pv1, pv2 in ((47, 340), (340, 578), (578, 754), (754, 757),
                      (757, 47)):
         out.append(Instance('retarget:%d>%d' % (pv1, pv2), 'retarget',
